@@ -52,7 +52,8 @@ CONSTANTS
   Windows,                   \* options.adaptive_window (powers of two)
   RetrySet,                  \* options.max_solve_retries
   MulExps,                   \* adaptive_time_step_multiplier = 2^-mulexp
-  InitEs, MaxEs,             \* dt_init = 2^-inite, dt_max = 2^-maxe (maxe <= inite, may be negative)
+  InitEs, MaxE4s,            \* dt_init = 2^-inite, dt_max = 2^-maxe with maxe = m - 4, m \in MaxE4s (cfg files hold no
+                             \* negative numbers); maxe <= inite, may be negative
   Deltas,                    \* possible max|d|psi|^2| of an answer, in units of 2^-FD
   MaxIters,                  \* options.max_iterations_per_step
   TolExps,                   \* screening_tolerance = 2^-tolexp
@@ -69,6 +70,7 @@ CONSTANTS
   MWarmupRule                \* window rule applied during warm-up
 
 FT == 24
+MaxEs == {m - 4 : m \in MaxE4s}
 FD == 16
 Abs(x) == IF x < 0 THEN -x ELSE x
 Min(a, b) == IF a < b THEN a ELSE b
@@ -216,9 +218,12 @@ InducedNum(an) == LET v2 == PolyakV(an) IN
                   /\ knew' = an /\ vel' = <<v2[1], v2[2]>> /\ Aind' = VAdd(Aind, <<v2[1], v2[2]>>)
                   /\ hist' = Append(hist, [t |-> "K", d |-> 0, k |-> an])
                   /\ UNCHANGED <<dt, adt, tent, dpsi, delta, linkA>>
-InducedWith(an) == LET v2 == PolyakV(an) IN
-                   InducedCtl(ErrSmall(VSub(an, Aind), VAdd(Aind, <<v2[1], v2[2]>>))) /\ InducedNum(an)
-Induced == \E k \in Kicks : InducedWith(VAdd(Aind, KickTable[k]))
+NewIterate(an) == LET v2 == PolyakV(an) IN VAdd(Aind, <<v2[1], v2[2]>>)
+\* with a given kernel output (trace validation) ...
+InducedWith(an) == InducedCtl(ErrSmall(VSub(an, Aind), NewIterate(an))) /\ InducedNum(an)
+\* ... and with the environment's choice: current iterate + kick
+Induced(k) == /\ InducedCtl(ErrSmall(KickTable[k], NewIterate(VAdd(Aind, KickTable[k]))))
+              /\ InducedNum(VAdd(Aind, KickTable[k]))
 
 (* Finish: window rule (solver.py: `if step > window: new_dt = dt_init / max(1e-10, mean(vals[-window:]));
    tentative_dt = clip(0.5 * (new_dt + dt), 0, dt_max)`), return dt *)
@@ -239,7 +244,7 @@ FinishNum == /\ IF Adaptive
              /\ UNCHANGED <<dt, adt, delta, Aind, vel, knew, linkA, hist>>
 Finish == FinishCtl /\ FinishNum
 
-Next == Begin \/ Test \/ Links \/ Refuse \/ (\E d \in Deltas : Answer(d)) \/ Induced \/ Finish
+Next == Begin \/ Test \/ Links \/ Refuse \/ (\E d \in Deltas : Answer(d)) \/ (\E k \in Kicks : Induced(k)) \/ Finish
 Spec == Init /\ [][Next]_vars
 
 Terminal == pc = "raised" \/ (pc = "begin" /\ step = MaxSteps)
